@@ -14,7 +14,7 @@ pub struct Profile {
 }
 
 pub const PROFILE_NAMES: &[&str] = &[
-    "flat", "two", "three", "overflow", "longkey", "empty", "hibytes",
+    "flat", "two", "three", "overflow", "longkey", "empty", "hibytes", "huge",
 ];
 
 fn padded(prefix: String, len: usize, fill: u8) -> Vec<u8> {
@@ -77,6 +77,17 @@ impl Profile {
                 }
                 for v in 0..nvals {
                     vals.push(padded(format!("v{}:", v), 20 + (v % 2) * 700, b'z'));
+                }
+            }
+            "huge" => {
+                // values of several MiB: one transaction needs more than one 8 MiB extension
+                pagesize = 4096;
+                for i in 0..nkeys {
+                    keys.push(format!("k{:04}", i).into_bytes());
+                }
+                let sizes = [2_600_000usize, 10, 3_200_000, 700_000];
+                for v in 0..nvals {
+                    vals.push(padded(format!("v{}:", v), sizes[v % sizes.len()], b'a' + (v % 26) as u8));
                 }
             }
             "empty" => {
